@@ -974,11 +974,36 @@ def _bounds_for(inputs, k):
     return cs
 
 
+_TIME_SCALE = None
+
+
+def time_scale():
+    """>= 1: how much longer wall-clock budgets are stretched; VERIF_TIME_SCALE overrides"""
+    global _TIME_SCALE
+    if _TIME_SCALE is None:
+        env = os.environ.get("VERIF_TIME_SCALE")
+        if env:
+            _TIME_SCALE = max(1.0, float(env))
+        else:
+            try:
+                load = os.getloadavg()[0]
+                ncpu = os.cpu_count() or 1
+            except OSError:
+                load, ncpu = 0.0, 1
+            # our own 16 worker processes count as load 1.0 x ncpu; anything beyond is foreign
+            _TIME_SCALE = min(6.0, max(1.0, 1.0 + (load - 0.5 * ncpu) / ncpu * 1.5))
+    return _TIME_SCALE
+
+
 def run_contract(contract, tier="quick", findings=None, want_sample=False):
     """explore + discharge one contract; returns a JSON-able result dict"""
     t_start = time.time()
-    tmo = contract.timeout or (20000 if tier == "quick" else 120000)
-    budget_s = contract.budget or (240 if tier == "quick" else 1800)
+    # solver timeouts are wall-clock: when the machine is oversubscribed (other checks, test
+    # suites) the same query needs proportionally longer, so that verdicts do not flip to
+    # "undecided" under load. The scale is fixed once per run from the load average.
+    scale = time_scale()
+    tmo = int((contract.timeout or (20000 if tier == "quick" else 120000)) * scale)
+    budget_s = (contract.budget or (240 if tier == "quick" else 1800)) * scale
     res = {
         "id": contract.id,
         "prop": contract.prop,
